@@ -28,7 +28,7 @@ RULE = ("batdata generator (1-5 groups with 1-3 batteries behind 1-4 shared inve
         "ordered bounds; probes = the four advertised bounds, +-1 W around each, +-0.001 W, random interior. distinct = "
         "canonical case JSON; non-trivial = >=2 groups or a shared-inverter/shared-battery group, and at least one "
         "probe inside and one outside the advertised bounds")
-REQUIRED_BUCKETS = ["set-points-of-an-accepted-inside-probe-judged", "battery-group-outside-the-pool-present", "group-with-one-battery-not-working",
+REQUIRED_BUCKETS = ["battery-with-zero-capacity-in-a-shared-group", "set-points-of-an-accepted-inside-probe-judged", "battery-group-outside-the-pool-present", "group-with-one-battery-not-working",
                     "probe-inside-accepted", "probe-outside-rejected", "shared-inverters(n bat:1 inv)",
                     "shared-batteries(1 bat:n inv)", "nonzero-exclusion", "adjust_power=True", "adjust_power=False",
                     "probe-on-bound", "irregular-group(batteries with different inverter sets)"]
@@ -52,6 +52,11 @@ def gen(rng: Any, tier: str, i: int) -> Any:
             case = {"groups": groups, "pseed": rng.randrange(1 << 30), "irregular": irregular,
                     "bystander": rng.random() < 0.25}
             multi = [g for g, grp in enumerate(groups) if len(grp["bats"]) >= 2]
+            if multi and rng.random() < 0.12:
+                # a battery that reports a capacity of 0 Wh next to a healthy one (its bounds still count on both sides)
+                g0 = rng.choice(multi)
+                groups[g0]["bats"][rng.randrange(len(groups[g0]["bats"]))]["cap"] = 0.0
+                case["zero_capacity"] = True
             if multi and not irregular and rng.random() < 0.25:
                 # one battery of a group reports a state in which it does not work (relay open) while its data keeps
                 # arriving: the group stays usable through its other batteries
@@ -182,6 +187,8 @@ def check(case: dict[str, Any], rec: Any) -> None:
         rec.bucket("group-with-one-battery-not-working")
     if case.get("bystander"):
         rec.bucket("battery-group-outside-the-pool-present")
+    if case.get("zero_capacity"):
+        rec.bucket("battery-with-zero-capacity-in-a-shared-group")
     if sb.inclusion_bounds is None or sb.exclusion_bounds is None:
         rec.violation("no-bounds-advertised-for-complete-data", {"sb": repr(sb)})
         return
